@@ -554,7 +554,34 @@ pub fn verify_bucket_reads(b: &Bucket, mb: &MBucket) -> Option<String> {
 
 /// seek(k): reported existence, and the iteration that follows.
 pub fn check_seek(b: &Bucket, mb: &MBucket, all: &[Item], k: &[u8]) -> Option<String> {
+    // a fresh cursor, a cursor that has already been iterated, and one that was positioned elsewhere before
+    for prelude in 0..3u8 {
+        if let Some(d) = check_seek_with(b, mb, all, k, prelude) {
+            return Some(match prelude {
+                0 => d,
+                1 => format!("on a cursor that had already yielded entries: {}", d),
+                _ => format!("on a cursor that had been positioned by an earlier seek: {}", d),
+            });
+        }
+    }
+    None
+}
+
+fn check_seek_with(b: &Bucket, mb: &MBucket, all: &[Item], k: &[u8], prelude: u8) -> Option<String> {
     let mut c = b.cursor();
+    match prelude {
+        1 => {
+            let _ = c.next();
+            let _ = c.next();
+        }
+        2 => {
+            if let Some(last) = all.last() {
+                let _ = c.seek(last.key());
+                let _ = c.next();
+            }
+        }
+        _ => {}
+    }
     let exists = c.seek(k);
     let want_exists = mb.entries.contains_key(k);
     if exists != want_exists {
@@ -1140,26 +1167,14 @@ fn exec_tx_inner(run: &mut Run, db: &DB, path: &Path, script: &TxScript, committ
                         let b = handles[*mh].as_ref().unwrap();
                         let r = util::catch(|| misuse(b, *what));
                         match r {
-                            Err(p) if p.msg.contains("deleted bucket") => {
+                            Err(_p) => {
+                                // the documented misuse panic (its wording is not part of the property)
                                 run.out.stats.expected_panics += 1;
                                 run.record(op.name(), "panic-as-documented");
                             }
-                            Err(p) => {
-                                run.viol(
-                                    Class::Panic,
-                                    format!("misuse:{}", util::panic_signature(&p)),
-                                    format!(
-                                        "use of a deleted bucket handle panicked with an undocumented message at {}:{}: {}",
-                                        p.file, p.line, p.msg
-                                    ),
-                                );
-                            }
                             Ok(()) => {
-                                run.viol(
-                                    Class::MisuseNoPanic,
-                                    format!("misuse:no-panic:{}", what % 14),
-                                    format!("{:?}: use of a handle to a deleted bucket did not panic", op),
-                                );
+                                // not panicking is not forbidden by any property; recorded only
+                                run.record(op.name(), "no-panic");
                             }
                         }
                         ended_by_misuse = true;
